@@ -121,7 +121,8 @@ class Abs:
     def __init__(self, prefix: str):
         self.prefix = prefix
         self.cand = re.compile(re.escape(prefix) + r"([1-9][0-9]*)?")
-        self.opn = re.compile(r"<<([\"']?)(" + re.escape(prefix) + r"(?:[1-9][0-9]*)?)\1$")
+        # group 3: the operator is <<- (the shell strips leading tabs from the body and the delimiter line)
+        self.opn = re.compile(r"<<(?P<dash>-?)([\"']?)(" + re.escape(prefix) + r"(?:[1-9][0-9]*)?)\2$")
 
     def index_of(self, eof: str) -> int:
         m = self.cand.fullmatch(eof)
@@ -142,7 +143,7 @@ class Abs:
             return L(ind, "eof", int(m.group(1) or 0), 0, tr)
         m = self.opn.search(core)
         if m:
-            return L(ind, "open", int(m.group(2)[len(self.prefix):] or 0), 1 if m.group(1) else 0, tr)
+            return L(ind, "open", int(m.group(3)[len(self.prefix):] or 0), 1 if m.group(2) else 0, tr)
         n = ids.setdefault(core, len(ids) + 1)
         sp = 1 if any(ch in core for ch in "$`\\") else 0
         return L(ind, "shebang" if core.startswith("#!") else "other", n, sp, tr)
@@ -160,12 +161,15 @@ class Abs:
                 break
         else:
             return None
-        delim = m.group(2)
+        delim = m.group(3)
+        rest = lines[o + 1:]
+        if m.group("dash"):
+            rest = [x.lstrip("\t") for x in rest]
         try:
-            t = lines.index(delim, o + 1)
+            t = rest.index(delim)
         except ValueError:
-            return delim, bool(m.group(1)), lines[o + 1:], False
-        return delim, bool(m.group(1)), lines[o + 1:t], True
+            return delim, bool(m.group(2)), rest, False
+        return delim, bool(m.group(2)), rest[:t], True
 
 
 def render_line(enc, prefix, contents) -> str:
@@ -851,6 +855,28 @@ def run(ctx: Ctx) -> None:
         if kept != (prep + "\n").encode() or out != kept:
             _viol(ctx, f"{shell} wrote {kept!r} / executed {out!r}, the command is {prep!r} (+ newline)",
                           {"kind": "cmd", "text": text, "prefix": "EOF", "source": "sh-generated"})
+    # whitespace the line abstraction does not carry (Script.tla counts spaces): leading tabs, a tab-indented
+    # terminator of the command's own <<- here-document, carriage returns, trailing tabs -- byte for byte
+    # through the real functions and a real shell
+    TABBED = ["#!/bin/cat\necho a\n\techo tabbed\nif true; then\n\t\t: two tabs\nfi",
+              "#!/bin/cat\ncat <<-EOF\n\thello\n\tEOF\necho after",
+              "#!/bin/cat\necho 'x\ty'\t\n\tEOF1\n \tEOF",
+              "#!/bin/cat\nprintf 'a\\r\\n'\n\t"]
+    for text in TABBED:
+        for prefix_lines in ("", "EOF\n"):
+            t = text.replace("#!/bin/cat\n", "#!/bin/cat\n" + prefix_lines, 1)
+            prep, eof, wrapped, _r, _rw = cc.real(t, "EOF")
+            bad = cc.heredoc_law(cc.abs_eof, prep, eof, wrapped)
+            if bad:
+                _viol(ctx, f"get_wrapped_command({prep!r}): {bad}", {"kind": "cmd", "text": t, "prefix": "EOF", "source": "tabbed"})
+            for shell in sh.shells:
+                kept, out, _rc = sh.run(shell, wrapped)
+                sh_runs += 1
+                sh_printed += 1
+                ctx.count_impl_trace()
+                if kept != (prep + "\n").encode() or out != kept:
+                    _viol(ctx, f"{shell} wrote {kept!r} / executed {out!r}, the command is {prep!r} (+ newline)",
+                          {"kind": "cmd", "text": t, "prefix": "EOF", "source": "sh-tabbed"})
     ctx.note("sh_runs", {"wrappers_executed": sh_runs, "printed_by_the_command_itself": sh_printed,
                          "shells": sh.shells})
 
